@@ -75,8 +75,9 @@ def order_flags(m0: bool, m1: bool, m2: bool, d0: bool, d1: bool, d2: bool,
     post: _
     """
     fam = fam1(False, False, False, False, False, False, m0, m1, m2, d0, d1, d2, z0, z1, z2, k0, k1, k2, recv)
-    a, _ = X.run(*fam, X.PERMS3[p], recv)
-    b, _ = X.run(*fam, X.PERMS3[0], recv)
+    kw = bool(H.P('kwcall'))
+    a, _ = X.run(*fam, X.PERMS3[p], recv, kw)
+    b, _ = X.run(*fam, X.PERMS3[0], recv, kw)
     return H.done(a == b)
 
 
@@ -168,6 +169,10 @@ def conditions(tier, seed):
                             'bounds': '3 candidates in layers %s, enumeration order %s vs identity, symbolic strict partial '
                                       'order of specialization, symbolic map_args/get_delegate answers' % (
                                           layers, X.PERMS3[p])})
+                if not recv:
+                    out.append({'name': 'order_flags_kw' + tag, 'func': 'order_flags', 'timeout': t,
+                                'param': {'perm': p, 'recv': recv, 'layers': layers, 'kwcall': True},
+                                'bounds': 'as order_flags, the call passes its last argument by keyword (k1 => ...)'})
                 out.append({'name': 'order_flags' + tag, 'func': 'order_flags', 'timeout': t,
                             'param': {'perm': p, 'recv': recv, 'layers': layers},
                             'bounds': '3 candidates in layers %s, enumeration order %s vs identity, no specialization, '
@@ -213,17 +218,18 @@ def replay(cond, args):
         a.setdefault(k, False)
     fam = fam1(**a)
     a['p'] = p
+    kw = bool((cond.get('param') or {}).get('kwcall'))
     # 1. stubs on plain CPython
-    o1, _ = X.run(*fam, X.PERMS3[a['p']], recv)
-    o2, _ = X.run(*fam, X.PERMS3[0], recv)
+    o1, _ = X.run(*fam, X.PERMS3[a['p']], recv, kw)
+    o2, _ = X.run(*fam, X.PERMS3[0], recv, kw)
     if o1 == o2:
         return {'reproduced': False, 'note': 'stub level agrees on CPython'}
     # 2. real overloads through the real engine under both orders
-    c1, desc = X.build_real(*fam, X.PERMS3[a['p']], recv)
-    c2, _ = X.build_real(*fam, X.PERMS3[0], recv)
+    c1, desc = X.build_real(*fam, X.PERMS3[a['p']], recv, kw)
+    c2, _ = X.build_real(*fam, X.PERMS3[0], recv, kw)
     r1, r2 = c1(), c2()
     if r1 == r2:
         return {'reproduced': False, 'note': 'real overloads agree: %r' % (r1,), 'family': desc}
     return {'reproduced': True, 'key': 'C06/winner-depends-on-enumeration-order',
-            'what': 'overloads %s: enumeration order %s gives %r, order %s gives %r' % (
-                '; '.join(desc), X.PERMS3[a['p']], r1, X.PERMS3[0], r2)}
+            'what': 'overloads %s%s: enumeration order %s gives %r, order %s gives %r' % (
+                '; '.join(desc), ' called with a keyword argument' if kw else '', X.PERMS3[a['p']], r1, X.PERMS3[0], r2)}
